@@ -64,7 +64,8 @@ static void mw_op(const Args &a) {
     else if (name == "xor") { ascon_masked_word_t *w = wobj(id); D(n, xor, w, wobj((int)a.num("src"))); }
     else if (name == "replace") { ascon_masked_word_t *w = wobj(id); D(n, replace, w, wobj((int)a.num("src")), size); }
     else if (name == "from") {      // convert a word with m shares into one with n shares
-        int m = (int)a.num("m"); need(m); ascon_masked_word_t *src = wobj((int)a.num("src")); ascon_masked_word_t *dst = wnew(id);
+        // dest == src (conversion in place) is what the masked AEAD code itself does when it narrows key shares
+        int m = (int)a.num("m"); need(m); ascon_masked_word_t *src = wobj((int)a.num("src")); ascon_masked_word_t *dst = a.num("src") == id ? src : wnew(id);
         // an m-share word says nothing about share slots m..MAXS-1 (e.g. after a copy into storage that
         // held something else): fill them when the plan asks
         if (a.has("dirty")) for (int k = m; k < MAXS; ++k) memset(&src->S[k], (int)a.num("dirty"), sizeof(src->S[k]));
@@ -85,7 +86,7 @@ static void mw_op(const Args &a) {
     else if (name == "separator") { ascon_masked_word_separator(wobj(id)); }
     else fatal("mw.op name %s", name.c_str());
     ev.b("val", wval(n, wobj(id))).raw("raw", wraw(n, wobj(id))).raw("tape_used", tape_used_json());
-    if (a.has("src") && name != "randomize") ev.b("srcval", wval(name == "from" ? (int)a.num("m") : n, wobj((int)a.num("src"))));
+    if (a.has("src") && name != "randomize") ev.b("srcval", wval((name == "from" && a.num("src") != id) ? (int)a.num("m") : n, wobj((int)a.num("src"))));
     ev.emit();
 }
 static void mw_free(const Args &a) { obj_del((int)a.num("obj")); }
@@ -111,7 +112,9 @@ static void ms_op(const Args &a) {
         ascon_state_t x1; DS(n, copy_to_x1, &x1, sobj(id)); uint8_t b[40]; ascon_extract_bytes(&x1, b, 0, 40); ascon_free(&x1); ev.b("out", b, 40);
     } else if (name == "from") {
         int m = (int)a.num("m"); need(m); ascon_masked_state_t *src = sobj((int)a.num("src"));
-        ascon_masked_state_t *dst = (ascon_masked_state_t *)obj_new(id, "mstate", sizeof(ascon_masked_state_t)).mem; ascon_masked_state_init(dst);
+        bool inplace = a.num("src") == id;
+        ascon_masked_state_t *dst = inplace ? src : (ascon_masked_state_t *)obj_new(id, "mstate", sizeof(ascon_masked_state_t)).mem;
+        if (!inplace) ascon_masked_state_init(dst);
         if (a.has("dirty")) for (int i = 0; i < 5; ++i) for (int k = m; k < MAXS; ++k) memset(&src->M[i].S[k], (int)a.num("dirty"), sizeof(src->M[i].S[k]));
 #define FROM(N, M) if (n == N && m == M) ascon_x##N##_copy_from_x##M(dst, src, trng()); else
         FROM(2, 2)
@@ -122,7 +125,7 @@ static void ms_op(const Args &a) {
         FROM(2, 4) FROM(3, 4) FROM(4, 2) FROM(4, 3) FROM(4, 4)
 #endif
         fatal("bad state conversion");
-        ev.b("srcval", sval(m, src));
+        ev.b("srcval", sval(inplace ? n : m, src));
     } else if (name == "free") {
         ascon_masked_state_t *s = sobj(id); ascon_masked_state_free(s);
         if (a.num("dump_raw")) ev.n("wipe", a.num("wipe")).b("raw", (const uint8_t *)s, sizeof(*s));
